@@ -566,6 +566,9 @@ static void check_file_structure(const int* ch, int ndev) {
             ref_buf rb; ref_buf_init(&rb); ref_thrift_encode(&t2, &f, &rb);
             uint8_t* x = mc_exact(rb.p, rb.n);
             carquet_arena_init(&ar); memset(&err, 0, sizeof err);
+            /* the arena has a history: the previous case's footer was parsed into it and the arena was reset (its memory is handed out again, not zeroed by the allocator) */
+            { static uint8_t prev[8192]; static size_t prevn; if (prevn) { parquet_file_metadata_t junk; carquet_error_t e2 = CARQUET_ERROR_INIT; (void)parquet_parse_file_metadata(prev, prevn, &ar, &junk, &e2); carquet_arena_reset(&ar); }
+              if (rb.n <= sizeof prev) { memcpy(prev, rb.p, rb.n); prevn = rb.n; } }
             st = parquet_parse_file_metadata(x, rb.n, &ar, &back, &err);
             char key[160];
             if (st != CARQUET_OK) { snprintf(key, sizeof key, "file.ref-encoded.parse-error.%s", vn); mc_fail(key, "form=%d status=%d msg=%s bytes=%s", form, st, err.message, mc_hex(x, rb.n, 48)); }
